@@ -44,6 +44,9 @@ abbrev SW : Nat := NV.Gen.C06.strRefBits
 
 inductive Kind where
   | arr | map | cls | buf | fn | str | mstr | obj | call | sent
+  | prog    -- program_t: counter `ref` (reference_prog / free_prog); items = the programs it inherits
+  | pack    -- bookkeeping of the harness: n anonymous clones (each item = the program reference of one object
+            -- structure), or a link of the chain of such packs
   deriving DecidableEq, Repr
 
 def Kind.isStr : Kind → Bool
@@ -190,6 +193,9 @@ def incVal (s : St) (v : Val) (n : Nat) : M St :=
       if !cell.live then throw .uaf
       else pure (s.setCell c { cell with ref := incRef cell.kind cell.ref n })
 
+/-- variables of a harness object; an object cell has nVars + 1 items: the variables and its program (`ob->prog`) -/
+def nVars : Nat := 4
+
 /-! ### micro-instructions -/
 
 inductive Mi where
@@ -228,7 +234,7 @@ def rel1 (s : St) : M St :=
         let dr := decRef cell.kind cell.ref
         if !dr.2 then pure (s.upd c { cell with ref := dr.1 } rest st)
         else if cell.kind == .obj && !cell.destructed then throw .fatal
-        else if cell.kind == .obj && !(cell.items.all Val.isNum) then throw .objvars
+        else if cell.kind == .obj && !((cell.items.take nVars).all Val.isNum) then throw .objvars
         else
           pure (s.upd c { cell with ref := dr.1, live := false, items := [] } (cell.items.reverse ++ rest)
                   (st.onFree cell.kind cell.items.length))
@@ -342,7 +348,6 @@ def runMi (s : St) : List Mi → M St
 
 def nSlots : Nat := 10
 def nObjs : Nat := 4
-def nVars : Nat := 4
 def nCalls : Nat := 4
 def nSents : Nat := 4
 def rHandle (o : Nat) : Nat := nSlots + o
@@ -351,9 +356,24 @@ def rCall (k : Nat) : Nat := nSlots + 2 * nObjs + k
 def rSent (k : Nat) : Nat := nSlots + 2 * nObjs + nCalls + k
 /-- the pending input_to of the (single) interactive user -/
 def rInput : Nat := nSlots + 2 * nObjs + nCalls + nSents
-def nFixed : Nat := nSlots + 2 * nObjs + nCalls + nSents + 1
+/-- the blueprint object of /c06/uobj (holds one reference on the program) -/
+def rProg : Nat := nSlots + 2 * nObjs + nCalls + nSents + 1
+/-- the blueprint object of /c06/base, the program /c06/uobj inherits -/
+def rBase : Nat := nSlots + 2 * nObjs + nCalls + nSents + 2
+/-- chain of the packs of anonymous clones (`clones n`) -/
+def rAnon : Nat := nSlots + 2 * nObjs + nCalls + nSents + 3
+def nFixed : Nat := nSlots + 2 * nObjs + nCalls + nSents + 4
 
-def St.init : St := { roots := List.replicate nFixed (.num 0) }
+/-- heap index of the program of /c06/base and of /c06/uobj -/
+def cBase : Nat := 0
+def cProg : Nat := 1
+
+/-- the state after the harness has loaded /c06/uobj: the program of /c06/base is held by its blueprint object and
+    by the inherit table of the program of /c06/uobj, which is held by its own blueprint object -/
+def St.init : St :=
+  { heap := [{ kind := .prog, ref := 2, live := true, items := [], vis := false },
+             { kind := .prog, ref := 1, live := true, items := [.ptr cBase], vis := false }],
+    roots := (List.replicate (nFixed - 3) (.num 0)) ++ [.ptr cProg, .ptr cBase, .num 0] }
 
 inductive Op where
   | newarr (s n : Nat) | newmap (s : Nat) | newcls (s : Nat) | newbuf (s n : Nat)
@@ -372,13 +392,16 @@ inductive Op where
   | sent (k o s t : Nat) | rmsent (k : Nat)
   | err (s t : Nat) | efun (f s t : Nat)
   | rest (w : String) | resto (w : String)    -- restore_variable / restore_object of a (damaged) save text, result dropped
+  | fefun (f s t k : Nat)                     -- `efun f s t` with an error injected at the k-th instruction (k = 0: at every k in turn)
+  | frest (w : String) (k : Nat)              -- `rest w` with an error injected at the k-th instruction
   | inp (o s t : Nat) | input
   | sappend (d : Nat) (w : String)            -- v[d] += "w"             (EXTEND_SVALUE_STRING)
   | sjoin (d t : Nat)                         -- v[d] += v[t]            (SVALUE_STRING_JOIN)
   | sadd (d s : Nat) (w : String)             -- v[d] = v[s] + "w"       (EXTEND_SVALUE_STRING on the pushed copy)
   | schar (d i : Nat) (w : String)            -- v[d][i] = 'w'           (unlink_string_svalue + byte store)
   | srange (d i j : Nat) (w : String)         -- v[d][i..j] = "w"        (unlink_string_svalue + copy_lvalue_range)
-  | clones (n : Nat) | unclone (n : Nat)   -- program counter probe, see ProgRef in Drive.lean
+  | clones (n : Nat) | unclone (n : Nat)   -- n further clones of /c06/uobj (only their program reference is modelled)
+  | unload (w : Nat)                        -- destruct + clean up the blueprint object of /c06/uobj (0) or /c06/base (1)
   deriving Repr
 
 /-- number of members of the harness class -/
@@ -483,6 +506,40 @@ def sentsOf (s : St) (c : Nat) : List Nat :=
     | some (_, sc) => sc.tag == c
     | none => false)
 
+/-- pointer items of a pack, highest index first -/
+def packPtrs (p : Nat) (items : List Val) : List (Nat × Nat) :=
+  (items.zipIdx.filterMap (fun (v, i) => match v with
+    | .ptr _ => some (p, i)
+    | .num _ => none)).reverse
+
+/-- the anonymous clones that still exist, newest pack first: (pack cell, item index) of their program reference.
+    The chain hangs at root `rAnon`: link cells [pack, next link]. -/
+def anonFrom (s : St) : Nat → Val → List (Nat × Nat)
+  | 0, _ => []
+  | _, .num _ => []
+  | f + 1, .ptr l =>
+    match s.heap[l]? with
+    | some lc =>
+      match lc.items with
+      | [.ptr p, nxt] =>
+        (match s.heap[p]? with
+          | some pc => packPtrs p pc.items
+          | none => []) ++ anonFrom s f nxt
+      | _ => []
+    | none => []
+
+def anonSlots (s : St) : List (Nat × Nat) :=
+  match s.roots[rAnon]? with
+  | some v => anonFrom s (s.heap.length + 1) v
+  | none => []
+
+/-- object structures of anonymous clones (they count in tot_alloc_object) -/
+def anonCount (s : St) : Nat := (anonSlots s).length
+
+/-- blueprint objects of /c06/uobj and /c06/base that have been unloaded: object structures that existed at the
+    baseline and are gone (the blueprints are roots of the model, not object cells) -/
+def unloadedCount (s : St) : Nat := (if isNumRoot s rProg then 1 else 0) + (if isNumRoot s rBase then 1 else 0)
+
 /-- translate an operation into its micro program in the current state; `none` = not applicable (skip) -/
 def compile (s : St) (op : Op) : Option (List Mi) :=
   let top := s.roots.length
@@ -567,8 +624,10 @@ def compile (s : St) (op : Op) : Option (List Mi) :=
       some [.take (.root d), .free, .take (.root (top - 1)), .put (.root d), .popRoot]
     else none
   | .newobj o =>
-    if o < nObjs && isNumRoot s (rHandle o) && isNumRoot s (rExist o) then
-      some [.alloc .obj nVars true "" o, .put (.root (rExist o)), .dup (.root (rExist o)), .put (.root (rHandle o))]
+    -- clone_object: get_empty_object, new_ob->prog = ob->prog, reference_prog, obj_list, (harness) add_ref
+    if o < nObjs && isNumRoot s (rHandle o) && isNumRoot s (rExist o) && !isNumRoot s rProg then
+      some [.alloc .obj (nVars + 1) true "" o, .dup (.root rProg), .put (.item fresh nVars),
+            .put (.root (rExist o)), .dup (.root (rExist o)), .put (.root (rHandle o))]
     else none
   | .setvar o i t =>
     match objCell s o with
@@ -727,8 +786,26 @@ def compile (s : St) (op : Op) : Option (List Mi) :=
   | .efun _ _ _ => none
   | .rest _ => none
   | .resto _ => none
-  | .clones _ => none
-  | .unclone _ => none
+  | .fefun _ _ _ _ => none
+  | .frest _ _ => none
+  | .clones n =>
+    -- n times clone_object: n object structures, each with one reference on the program (reference_prog); the
+    -- pack goes in front of the chain at rAnon
+    if 0 < n && !isNumRoot s rProg then
+      some [.alloc .pack n false "" 0, .fillFrom fresh (.root rProg),
+            .alloc .pack 2 false "" 1, .swap, .put (.item (fresh + 1) 0),
+            .take (.root rAnon), .put (.item (fresh + 1) 1), .put (.root rAnon)]
+    else none
+  | .unclone n =>
+    -- n anonymous clones destructed and cleaned up one at a time: dealloc_object -> free_prog(ob->prog)
+    let sl := anonSlots s
+    if sl.length < n || !s.dlist.isEmpty then none
+    else some ((sl.take n).flatMap (fun (p, i) => [Mi.take (.item p i), Mi.free]))
+  | .unload w =>
+    -- the blueprint object is destructed and cleaned up: its reference on the program is released (free_prog); the
+    -- program goes when no clone is left, and releases the programs it inherits (deallocate_program)
+    let r := if w == 0 then rProg else rBase
+    if w < 2 && !isNumRoot s r && s.dlist.isEmpty then some [.take (.root r), .free] else none
 
 /-- result of one operation -/
 inductive Res where
@@ -750,6 +827,8 @@ def step (s : St) (op : Op) : Res :=
   | .efun _ _ _ => .ok s
   | .rest _ => .ok s
   | .resto _ => .ok s
+  | .fefun _ _ _ _ => .ok s
+  | .frest _ _ => .ok s
   | op =>
     match compile s op with
     | none => .skip
